@@ -914,9 +914,13 @@ func torfile(w http.ResponseWriter, r *http.Request, t *tor.Torrent) {
 	}
 }
 
+// m3uTitle removes the characters that cannot appear in the title of an
+// EXTINF line: the comma and the line terminators.
+var m3uTitle = strings.NewReplacer(",", "", "\r", "", "\n", "")
+
 func m3uentry(w http.ResponseWriter, host string, hash hash.Hash, path path.Path) {
 	fmt.Fprintf(w, "#EXTINF:-1,%v\n",
-		strings.Replace(path[len(path)-1], ",", "", -1))
+		m3uTitle.Replace(path[len(path)-1]))
 	fmt.Fprintf(w, "http://%v/%v/%v\n",
 		host, hash, pathUrl(path))
 }
